@@ -94,14 +94,6 @@ def stepTime (s : TimeSt) (ts : List String) : TimeSt × String :=
     | _, _, _ => (s, "bad-op")
   | _ => (s, "bad-op")
 
-/-- `node`: the `time` protocol plus harness-only scenario lines (`scn …`, echoed as `ok`): the node
-stream reports, per `tx` line, the verdict class the real node / pool / direct verifier gave at the
-commit position described by the preceding `env` line -/
-def stepNode (s : TimeSt) (ts : List String) : TimeSt × String :=
-  match ts with
-  | "scn" :: _ => (s, "ok")
-  | _ => stepTime s ts
-
 /-! ### `resolve` -/
 
 structure ResSt where
@@ -303,6 +295,23 @@ def stepRules (s : Unit) (ts : List String) : Unit × String :=
     | some start, some pairs =>
       (s, match daoScriptSize start 0 pairs with | none => "ok" | some i => s!"dao-lock-size-mismatch {i}")
     | _, _ => (s, "bad-op")
+  | ["dh", hds, info, wit, cap] =>
+    -- one withdrawing DAO input (lock args 0, DAO type args 0, 8 data bytes) of capacity `cap`; header
+    -- id n stands for a header with number n and accumulated rate 10^16 + n * 10^12
+    let w? : Option DaoWitness :=
+      if wit = "m" then some .missing else if wit = "x" then some .notWitnessArgs
+      else if wit = "b" then some .badInputType
+      else if wit.startsWith "i" then (parseNat? (wit.drop 1).toString).map .index else none
+    match parseNatList? hds, (if info = "n" then some none else (parseNat? info).map some), w?, parseNat? cap with
+    | some hds, some info, some w, some cap =>
+      let occ := (capBytes 8).bind fun dc => occupied ⟨cap, 0, some 0, 8⟩ dc
+      (s, match daoWithdraw hds id (fun n => 10000000000000000 + n * 1000000000000) info w cap occ with
+        | .error .invalidOutPoint => "invalid-out-point"
+        | .error .invalidDaoFormat => "invalid-dao-format"
+        | .error .invalidHeader => "invalid-header"
+        | .ok none => "capacity-error"
+        | .ok (some v) => s!"ok {v}")
+    | _, _, _, _ => (s, "bad-op")
   | ["ctx", ins, outs] =>
     match (splitList ins).mapM parseCtxIn?, parseNatList? outs with
     | some ins, some outs =>
@@ -316,6 +325,72 @@ def stepRules (s : Unit) (ts : List String) : Unit × String :=
       | v => (s, s!"cap {showCapV v}")
     | _, _ => (s, "bad-op")
   | _ => (s, "bad-op")
+
+/-! ### `node` -/
+
+def showPoolV : PoolV → String
+  | .ok c f => s!"ok {c} {f}"
+  | .nonContextual v => s!"nc {showNcV v}"
+  | .duplicated => "duplicated"
+  | .resolve e => s!"resolve {showRErr e}"
+  | .malformedFee => "malformed-fee"
+  | .lowFeeRate m f => s!"low-fee-rate {m} {f}"
+  | .time v => s!"time {showV v}"
+  | .capacity v => s!"cap {showCapV v}"
+  | .exceededMaximumCycles => "exceeded-maximum-cycles"
+  | .script c => s!"script {c}"
+  | .daoSize i => s!"dao-lock-size-mismatch {i}"
+  | .declaredWrongCycles d a => s!"declared-wrong-cycles {d} {a}"
+
+/-- `padm <max_block_bytes> <min_fee_rate> <max_block_cycles> <declared|n> <in_pool 0|1> <cycles>
+<live out points> <ins> <deps> <header deps> <outs> <data lens> <witness lens> <fee inputs> <output caps>`:
+the tx-pool admission of one transaction (`poolAdmit`), resolution over the listed live cells -/
+def stepPadm (ts : List String) : String :=
+  match ts with
+  | [mb, rate, maxc, decl, inpool, cyc, live, ins, deps, hd, outs, datas, wits, feeins, ocaps] =>
+    match parseNats? [mb, rate, maxc, inpool, cyc], (if decl = "n" then some none else (parseNat? decl).map some),
+        (splitList live).mapM parseOp?, (splitList ins).mapM dotNats?, (splitList deps).mapM dotNats?,
+        parseNatList? hd, (splitList outs).mapM parseOutShape?, parseNatList? datas, parseNatList? wits,
+        (splitList feeins).mapM parseCtxIn?, parseNatList? ocaps with
+    | some [mb, rate, maxc, inpool, cyc], some decl, some live, some ins, some deps, some hd, some outs, some datas,
+        some wits, some feeins, some ocaps =>
+      let ins? := ins.mapM fun l => match l with | [a, b] => some (a, b) | _ => none
+      let deps? := deps.mapM fun l => match l with | [a, b, c] => some (⟨a, b, c⟩ : DepShape) | _ => none
+      match ins?, deps? with
+      | some ins, some deps =>
+        let t : NcTx := ⟨0, ins, deps, hd, outs, datas, wits⟩
+        let refs := mkRefs (ins.map fun (a, b) => ⟨a, b⟩) (deps.map fun d => ⟨⟨d.tx, d.idx⟩, d.depType != 0⟩) hd wits.length
+        let provider := tableProvider (live.map fun op => (op, Status.live none))
+        let res : Option RErr := match resolveTx [] provider (fun _ => true) refs with
+          | .error e => some e
+          | .ok _ => none
+        let exempt := feeins.isEmpty || feeins.any (·.2.2)
+        let outputs : List Output :=
+          (outs.zip (ocaps.zip datas)).map fun (o, c, d) => ⟨c, o.lock.args, o.type.map (·.args), d⟩
+        let cap := capacityVerify exempt (feeins.map (·.2.1)) outputs
+        let p : PoolIn := ⟨t, Gen.Tx.TX_VERSION, mb, inpool != 0, res, transactionFee (feeins.map (·.1)) ocaps, rate,
+          .ok, cap, 0, cyc, decl, maxc, none⟩
+        s!"{showPoolV (poolAdmit p)} size={sizeInBlock t}"
+      | _, _ => "bad-op"
+    | _, _, _, _, _, _, _, _, _, _, _ => "bad-op"
+  | _ => "bad-op"
+
+/-- `node`: the `time` protocol plus harness-only scenario lines (`scn …`, echoed as `ok`): the node
+stream reports, per `tx` line, the verdict class the real node / pool / direct verifier gave at the
+commit position described by the preceding `env` line; `hdep <header ids>` = the header-dep check of
+`resolve_transaction` at that position; `padm …` = the tx-pool admission -/
+def stepNode (s : TimeSt) (ts : List String) : TimeSt × String :=
+  match ts with
+  | "scn" :: _ => (s, "ok")
+  | ["hdep", l] =>
+    match s.env, parseNatList? l with
+    | some env, some hds =>
+      (s, match headerDepsCheck s.db env hds with
+        | .ok () => "ok"
+        | .error e => showRErr e)
+    | _, _ => (s, "bad-op")
+  | "padm" :: rest => (s, stepPadm rest)
+  | _ => stepTime s ts
 
 def main (args : List String) : IO UInt32 :=
   match args with
